@@ -18,6 +18,8 @@ HARNESSES = {
     'c12': dict(flavour='asan', srcs=['c12.cpp']),
     'c20_tsan': dict(flavour='tsan', srcs=['c20.cpp']),
     'c19_tsan': dict(flavour='tsan', srcs=['c19.cpp']),
+    'c14_tsan': dict(flavour='tsan', srcs=['c14.cpp']),
+    'c14_asan': dict(flavour='asan', srcs=['c14.cpp']),
     'c19_asan': dict(flavour='asan', srcs=['c19.cpp']),
     'c19_fort': dict(flavour='fort', srcs=['c19_fort.cpp'], common=False, libs='-ljsoncpp -lsystemd'),
     'c20_asan': dict(flavour='asan', srcs=['c20.cpp']),
@@ -312,6 +314,25 @@ PROPS = {
              'operations, a bulk run, or a session that ends abnormally.',
         assumptions=['thread interleavings are those the scheduler and generated yields produce (sampled, not enumerated)'],
     ),
+    'C14': dict(
+        harness='c14_tsan', level='exploration',
+        quick=dict(shards=8, n=120, size=100, asan_shards=8, asan_n=120),
+        thorough=dict(shards=16, n=4000, size=100, asan_shards=16, asan_n=4000),
+        confirm_replays=3,
+        rule='rapidcheck stateful generation against the real FsDropInService (inotify on tmpfs, its own watcher '
+             'thread): optional files present before start-up, then <= 25 operations over 4 file names plus a '
+             'dot-file: write (valid / invalid JSON / truncated JSON / parses but does not compile / non-numeric '
+             'delay) in 1-3 write(2) calls, rename into / out of / over, delete, remove the directory with its files and '
+             're-create it after 0-2 ticks, interleaved with main-loop ticks (updateDropIns, prerun, runOnce) and short '
+             'sleeps. Oracle: TSan / ASan silent, process alive; after the last operation a sentinel drop-in is written '
+             'and ticks run until it is active (events of one directory are FIFO, so everything earlier has been '
+             'applied); then the active drop-ins per base ruleset equal the valid non-dot files present with their latest '
+             'content, none twice, newest first when no directory re-creation happened; start-up files are loaded in '
+             'name order. A sentinel that is not picked up within 600 ticks and 3 s (orders of magnitude above the few ticks it takes) is reported after three confirming replays. Non-trivial = a '
+             'rewrite of an active file together with a directory re-creation, or >= 3 file events between two ticks.',
+        assumptions=['watcher / main-loop interleavings are those the scheduler and generated yields produce',
+                     'order after a directory re-creation depends on when the watcher thread ran: don\'t-care'],
+    ),
 }
 
 
@@ -517,5 +538,21 @@ def run_C19(r, spec, tier):
             path = save_violation(r.prop, {'property': 'C19', 'harness': 'c19_fort', 'why': why,
                                            'case': {'sub': 'paths', 'from': 90, 'to': 130}}, 'paths')
             r.violations.append((why, path))
+    cov['replayed'] = nrep
+    return cov
+
+
+def run_C14(r, spec, tier):
+    nrep = r.replay_tier('c14_asan')
+    env = {'VP_SHRINK_BUDGET': '40'}
+    agg = r.campaign('c14_tsan', 'tsan', tier['shards'], tier['n'], tier['size'], extra_env=env)
+    agg2 = r.campaign('c14_asan', 'asan', tier['asan_shards'], tier['asan_n'], tier['size'], extra_env=env)
+    cov = cov_from(agg)
+    cov['evaluations'] += agg2['evaluations']
+    cov['discarded'] += agg2['discarded']
+    cov['distinct_nontrivial'] = len(agg['hashes'] | agg2['hashes'])
+    cov['flavours'] = dict(tsan=agg['evaluations'], asan=agg2['evaluations'])
+    for k, v in agg2['labels'].items():
+        cov['labels'][k] = cov['labels'].get(k, 0) + v
     cov['replayed'] = nrep
     return cov
